@@ -47,7 +47,7 @@ func eligibleKinds(p param) []string {
 	}
 	var out []string
 	for _, k := range kinds {
-		if eligible(k, p) {
+		if eligible(k, p) && !k.special {
 			out = append(out, k.name)
 		}
 	}
@@ -210,15 +210,21 @@ func recvName(t recvType) string {
 
 // statesFor lists the receiver states that apply to an operation.
 func statesFor(op *opDef) []int {
+	var st []int
 	switch {
 	case op.recv == rNone:
 		return []int{stZero}
 	case op.sizedOnly:
-		return []int{stSized, stView}
+		st = []int{stSized, stView}
 	case op.strict || op.anyShape:
-		return []int{stZero, stReset, stSized, stView, stWrong}
+		st = []int{stZero, stReset, stSized, stView, stWrong}
+	default:
+		st = []int{stZero, stReset, stSized, stView}
 	}
-	return []int{stZero, stReset, stSized, stView}
+	if op.recv == rVec {
+		st = append(st, stRowView)
+	}
+	return st
 }
 
 func checkOpSub(sub string) func(c opCase) *vk.Failure {
@@ -564,9 +570,12 @@ func (e *enumOp) gen(i int) opCase {
 }
 
 func TestOpsExhaustive(t *testing.T) {
-	reps := vk.Pick(1, 3)
+	base := vk.Pick(1, 3)
 	for _, op := range ops {
-		e := newEnumOp(op, reps)
+		// operations with few kind tuples get more shapes per tuple
+		e := newEnumOp(op, 1)
+		boost := min(max(1, (2000+e.total-1)/e.total), 8)
+		e = newEnumOp(op, base*boost)
 		sub := "enum/" + op.name
 		t.Run(op.name, func(t *testing.T) {
 			vk.Enumerate(t, sub, e.total, e.gen, checkOpSub(sub))
